@@ -144,7 +144,7 @@ def run(tier, seed):
          vacuity=["SaveInit", "MarkSigned", "Restart", "Register", "TickNoSignWait", "TickEpochChanged"])
     if th:
         c.mc("signer", "MC_Signer", "MC_Signer_thorough.cfg", workers=14, timeout=3000, heap="24g", env_extra=env)
-    nsim = 400 if not th else 6000
+    nsim = 600 if not th else 6000
     g = c.mc("signer", "MC_SignerGen", "MC_SignerGen.cfg", name="SIM+GEN", workers=4, timeout=1500,
              coverage=False, simulate=nsim, depth=130, seed=seed, env_extra=env)
     if g.violated:
@@ -152,7 +152,7 @@ def run(tier, seed):
     behaviours = vlib.printed_json(g, "SCHED")
     if len(behaviours) < 300:
         raise vlib.ToolError("GEN produced too few behaviours")
-    chosen, feats = select(behaviours, 60 if not th else 600)
+    chosen, feats = select(behaviours, 120 if not th else 1000)
     sched = os.path.join(c.work, "schedules.ndjson")
     expectations = {}
     with open(sched, "w") as f:
@@ -168,9 +168,10 @@ def run(tier, seed):
     c.build("vh-signer", ["c20_signer"])
     total_events = 0
     distinct = set()
+    vacuous = []
     for name, args, exp in (
             ("tlc_schedules", ["--schedules", sched], expectations),
-            ("seeded_driver", ["--seed", seed, "--runs", 25 if not th else 250, "--len", 90], None)):
+            ("seeded_driver", ["--seed", seed, "--runs", 50 if not th else 500, "--len", 90], None)):
         t = os.path.join(c.work, f"{name}.trace.ndjson")
         s = c.run_harness("c20_signer", ["--out", t, "--work", os.path.join(c.work, "signer_" + name), "--jobs", 12] + args,
                           timeout=3000)
@@ -180,10 +181,12 @@ def run(tier, seed):
         total_events += n
         distinct |= d
         hits = (s or {}).get("faults_exercised", {})
-        for fault in FAULTS + ["turn"]:
-            if hits.get(fault, 0) == 0:
-                raise vlib.ToolError(f"RUN {name}: vacuity -- aggregator fault {fault} never exercised")
+        vacuous += [f"RUN {name}: aggregator fault {fault} never exercised" for fault in FAULTS + ["turn"]
+                    if hits.get(fault, 0) == 0]
         c.validate("signer", "SignerTrace", "SignerTrace.cfg", t, name=name, timeout=3000, heap="8g")
+    if vacuous and not c.violations:
+        # (a signer that never signs exercises no publication fault: the contract's progress clause reports that first)
+        raise vlib.ToolError("vacuity -- " + "; ".join(vacuous))
     c.cov["evaluations"] = total_events
     c.cov["distinct_nontrivial"] = len(distinct)
     c.cov["rule"] = ("one observation per external stimulus of the real signer; distinct = distinct (action, state label, "
